@@ -325,6 +325,31 @@ func TestE3Leader(t *testing.T) {
 					}
 					break
 				}
+				// a member that left the follower table and is in it again has a NEW record: requests in
+				// flight to it belong to the orphaned one (the model has no record identity): fail them
+				{
+					was := map[string]bool{}
+					for _, f := range strings.Split(ParseKV(mnode)["fol"], ";") {
+						was[strings.Split(f, ".")[0]] = true
+					}
+					for _, st := range chosen.states {
+						now := map[string]bool{}
+						for _, f := range strings.Split(ParseKV(st)["fol"], ";") {
+							id := strings.Split(f, ".")[0]
+							now[id] = true
+							if !was[id] {
+								for c := range outstanding {
+									if fmt.Sprint(c.To) == id {
+										s.Fail(c)
+										delete(outstanding, c)
+									}
+								}
+							}
+						}
+						was = now
+					}
+					synctest.Wait()
+				}
 				mnode = chosen.final
 				for c, r := range chosenRounds {
 					outstanding[c] = r
@@ -385,10 +410,21 @@ func exploreCascade(ask func(string) []string, now int64, sec []string) []cascad
 			}
 		}
 	}
+	// busy: the read-only loop is answering the reads it collected, with the mutex released around
+	// every state machine call: a wake-up that arrives meanwhile finds nobody waiting and is lost
+	// (the read it would have served stays pending until the next round signals again)
 	var rec func(o cascadeOutcome, sigC, sigA, sigR bool, depth int)
-	rec = func(o cascadeOutcome, sigC, sigA, sigR bool, depth int) {
-		if len(out) >= 48 {
+	var recB func(o cascadeOutcome, sigC, sigA, sigR, busy bool, depth int)
+	rec = func(o cascadeOutcome, sigC, sigA, sigR bool, depth int) { recB(o, sigC, sigA, sigR, false, depth) }
+	recB = func(o cascadeOutcome, sigC, sigA, sigR, busy bool, depth int) {
+		if len(out) >= 96 {
 			return
+		}
+		if busy {
+			// the pass ends now ...
+			recB(o, sigC, sigA, sigR, false, depth+1)
+			// ... or later, after other loops ran; what they signal to the read-only loop is lost
+			sigR = false
 		}
 		if (!sigC && !sigA && !sigR) || depth > 40 {
 			key := o.final + "|" + strings.Join(o.events, ",") + "|" + multiset(strings.Join(o.effs, ","))
@@ -407,7 +443,7 @@ func exploreCascade(ask func(string) []string, now int64, sec []string) []cascad
 			n.final = r[0]
 			n.states = append(n.states, r[0])
 			collect(&n, r[1], len(n.states)-1)
-			rec(n, hasEff(r[1], "sigC"), sigA || hasEff(r[1], "sigA"), sigR || hasEff(r[1], "sigR"), depth+1)
+			recB(n, hasEff(r[1], "sigC"), sigA || hasEff(r[1], "sigA"), (sigR || hasEff(r[1], "sigR")) && !busy, busy, depth+1)
 		}
 		if sigA {
 			n := clone()
@@ -415,7 +451,7 @@ func exploreCascade(ask func(string) []string, now int64, sec []string) []cascad
 			ap := strings.TrimPrefix(r[2], "applied=")
 			if ap == "none" {
 				collect(&n, r[1], len(n.states)-1)
-				rec(n, sigC, false, sigR, depth+1)
+				recB(n, sigC, false, sigR, busy, depth+1)
 			} else {
 				n.final = r[0]
 				n.states = append(n.states, r[0])
@@ -429,7 +465,7 @@ func exploreCascade(ask func(string) []string, now int64, sec []string) []cascad
 						n.events = append(n.events, "ok:cfg:"+f[1])
 					}
 				}
-				rec(n, sigC || hasEff(r[1], "sigC"), true, true, depth+1)
+				recB(n, sigC || hasEff(r[1], "sigC"), true, !busy, busy, depth+1)
 			}
 		}
 		if sigR {
@@ -445,7 +481,13 @@ func exploreCascade(ask func(string) []string, now int64, sec []string) []cascad
 					n.events = append(n.events, "err:read:"+f[1])
 				}
 			}
-			rec(n, sigC, sigA, false, depth+1)
+			served := false
+			for _, x := range n.events[len(o.events):] {
+				if strings.HasPrefix(x, "ok:read:") || strings.HasPrefix(x, "err:read:") {
+					served = true
+				}
+			}
+			recB(n, sigC, sigA, false, served, depth+1)
 		}
 	}
 	o := cascadeOutcome{final: sec[0], states: []string{sec[0]}}
